@@ -292,7 +292,8 @@ func (ch *channel) addChunkData(rsd recSegData) {
 
 func (ch *channel) receivedSegData(rsd recSegData) {
 	log := slog.Default().With("chName", ch.name, "trName", rsd.name, "seqNr", rsd.seqNr)
-	if _, ok := ch.getTrData(rsd.name); !ok {
+	trd, ok := ch.getTrData(rsd.name)
+	if !ok {
 		log.Error("received segData for unknown track")
 		return
 	}
@@ -325,8 +326,16 @@ func (ch *channel) receivedSegData(rsd recSegData) {
 		// Remove old segments after the MPD has been updated, so that it does not list removed segments.
 		// If the MPD could not be regenerated, since the tracks have no number in common, the segments to be
 		// removed are dropped from it. The latest number stays in the MPD and in storage until there is a new one.
-		if ch.maxNrBufSegs > 0 && rsd.seqNr >= ch.maxNrBufSegs {
-			lastToRemove := rsd.seqNr - ch.maxNrBufSegs
+		// Segments are removed before the channel has started as well, also those stored before a restart.
+		maxNrBufSegs := ch.maxNrBufSegs
+		if maxNrBufSegs == 0 && rsd.dur > 0 {
+			// The channel has not started, and will not for as long as the master track sends nothing.
+			// Until it has, the duration of this segment tells how many segments of the track to keep.
+			maxNrBufSegs = ch.timeShiftBufferDepthS*trd.timeScaleOut/rsd.dur + 2
+		}
+		if maxNrBufSegs > 0 && rsd.seqNr >= maxNrBufSegs {
+			lastToRemove := rsd.seqNr - maxNrBufSegs
+			ch.segTimesGen.dropBefore(name, lastToRemove+1) // The segments to be removed cannot be listed later
 			err = ch.segTimesGen.dropOldFromMPD(log, lastToRemove+1)
 			if err != nil {
 				log.Error("Failed to drop old segments from MPD", "err", err)
